@@ -84,6 +84,7 @@ func (s *Server) Initialize(ctx context.Context, params *protocol.InitializePara
 
 	if s.rootURI != "" {
 		s.workspace = workspace.NewWorkspace(s.rootURI, s.loader)
+		s.workspace.SetOpenContent(s.openContent)
 	}
 
 	settings := s.getSettings()
@@ -659,6 +660,22 @@ func (s *Server) withOpenDocuments(resolved *include.ResolvedJournal) *include.R
 		return true
 	})
 	return &overlay
+}
+
+// openContent returns the editor text of the file if it is open.
+func (s *Server) openContent(path string) (string, bool) {
+	var text string
+	found := false
+	s.documents.Range(func(key, value any) bool {
+		docURI, ok := key.(protocol.DocumentURI)
+		content, isText := value.(string)
+		if ok && isText && uriToPath(docURI) == path {
+			text, found = content, true
+			return false
+		}
+		return true
+	})
+	return text, found
 }
 
 func (s *Server) RootURI() string {
